@@ -2,6 +2,7 @@ import Std
 import Model.Proto
 import Model.KN
 import Model.KNSpec
+import Model.KNTable
 /-!
 Driver for streams `lmplz` / `lmplz-config` (C05, C06, C07).
 
@@ -105,6 +106,11 @@ def main (args : List String) : IO UInt32 := do
     | .ok m =>
       IO.println "ok"
       IO.println s!"types {v.words.size}"
+      if mode == "spec" then
+        -- the decidable hypotheses of `normalised_table` (Proofs/KNTable.lean) on this very table
+        let wf := if order ≤ 1 then Spec.tableWF1b cfg (countFull 1 corpus.toList)
+                  else Spec.tableWFb cfg (countFull order corpus.toList)
+        IO.println s!"tablewf {if wf then 1 else 0}"
       for (s, i) in m.stats.zipIdx do
         IO.println s!"stat {i+1} {s.n1} {s.n2} {s.n3} {s.n4} {s.count} {s.countPruned}"
       for ((d, f), i) in m.discs.zipIdx do
